@@ -14,7 +14,10 @@ def handle (op : String) (j : Json) : Except String Json := do
     let argDir := pathOf ((optStr j "argDir").getD "")  -- directory the upward walk starts from (absolute form)
     let stop := pathOf ((optStr j "walkStop").getD "")  -- relative arguments stop at the working directory
     -- walk upwards from argDir but not above `stop` (stop = [] for absolute arguments)
-    let walk := findRepo (fun r => gitDirs.contains r.reverse && stop.isPrefixOf r.reverse) argDir.reverse
+    let hasGit := fun (r : List String) => gitDirs.contains r.reverse && stop.isPrefixOf r.reverse
+    let argDirs := paths "argDirs"                    -- several path arguments (absolute)
+    let walk := if argDirs.isEmpty then findRepo hasGit argDir.reverse
+                else findRepoMulti hasGit (argDirs.map List.reverse)
     let g : GuardIn := { dryRun := (getBool j "dryRun").toOption.getD false, force := (getBool j "force").toOption.getD false,
                          repo := walk.map List.reverse, status := paths "status", modified := paths "modified",
                          deleted := paths "deleted" }
